@@ -388,7 +388,7 @@ def check_stream_ops(rep, ws):
             if n.startswith('_ZNKSt8ios_base') or n.startswith('_ZNKSt9basic_ios'): return True
             if n.startswith('_ZNSt8ios_base9precisionE'):
                 a = c.args[-1]
-                if a.op == 'const' and isinstance(a.attr, int) and a.attr >= 5: return True
+                if a.op == 'const' and a.ty == 'i64' and 5 <= a.attr[1] < 2 ** 31: return True
                 if a.op == 'call' and '_ZNKSt8ios_base9precisionEv' in str(a.attr): return True
                 if a.op == 'call' and '_ZNSt8ios_base9precisionE' in str(a.attr): return True     # value returned by an earlier set
             return False
